@@ -939,3 +939,24 @@ func (c *classifier) doResult(call *ssa.Call) cls {
 	}
 	return r
 }
+
+
+// regionBlocks: the blocks of a special form's region - in EVAL and in the evaluation helpers called from it.
+func (m *evalModel) regionBlocks(name string) []*ssa.BasicBlock {
+	var out []*ssa.BasicBlock
+	for _, b := range m.EVAL.Blocks {
+		if m.regions[name][b] {
+			out = append(out, b)
+		}
+	}
+	for _, h := range m.helpers {
+		for _, f := range append([]*ssa.Function{h}, allAnon(h)...) {
+			for _, b := range f.Blocks {
+				if m.regionOf(b) == name {
+					out = append(out, b)
+				}
+			}
+		}
+	}
+	return out
+}
